@@ -99,6 +99,28 @@ def step (line : String) : String :=
        else if which = "query" then showStr (setQueryOf U a b [])
        else "bad-op"
      | _, _, _, _ => "bad-op")
+  | "scview" :: hdrs =>
+    -- Response.cookies getter over all Set-Cookie header values
+    (match allSome (hdrs.map strField) with
+     | some hs => let v := getSetCookies hs; if v.isEmpty then "none" else showCookies v
+     | none => "bad-op")
+  | "scset" :: cookies =>
+    -- Response.cookies setter: the header values written, then the view read back from them
+    (match allSome (cookies.map parsePairs) with
+     | some cs =>
+       let hs := setSetCookies cs
+       (if hs.isEmpty then "none" else " ".intercalate (hs.map showStr)) ++ " | " ++
+         (let v := getSetCookies hs; if v.isEmpty then "none" else showCookies v)
+     | none => "bad-op")
+  | ["formglue", ct] =>
+    -- the content-type test of `_get_urlencoded_form` and the header `_set_urlencoded_form` leaves behind
+    (match (if ct = "none" then some none else (strField ct).map some) with
+     | some c =>
+       let L : FormLib := { U := { urlencode := fun _ => [], parseQsl := fun _ => [([120], [])], quote := id, unquote := id },
+                            getText := fun _ _ => [], encodeAscii := fun _ => [] }
+       (if (getForm L { ct := c, body := [] }).isEmpty then "0" else "1") ++ " " ++
+         (match (setForm L { ct := c, body := [] } []).ct with | some x => showStr x | none => "none")
+     | none => "bad-op")
   | ["mpdec", b, body] =>
     (match hexOr b, hexOr body with
      | some b, some body =>
